@@ -272,7 +272,9 @@ def main():
     data = json.load(sys.stdin)
     out = []
     import pedal.cait.stretchy_tree_matching as stm
+    import time as _time
     for case in data['cases']:
+        _t0 = _time.time()
         MAIN_REPORT.clear()
         contextualize_report(case['program'])
         rec = {'runs': []}
@@ -345,6 +347,37 @@ def main():
                     rec['rerun'] = {'n': len(ms), 'bindings': [bindings(m) for m in ms]}
                 except Exception as e:
                     rec['rerun'] = {'crash': type(e).__name__ + ': ' + str(e)[:120]}
+        # searches that CONTINUE from an earlier match: below the node a placeholder was bound to (CaitNode.find_matches) and
+        # through find_matches(..., use_previous=match); on a report of their own
+        rec['continued'] = []
+        for cont in case.get('cont', []):
+            from pedal.core.report import Report
+            one = {'first': False}
+            try:
+                rep = Report()
+                exp = cont['outer_exp']
+                first = None
+                for m in find_matches(cont['outer'], student_code=case['program'], report=rep):
+                    b = bindings(m)
+                    if all(b['names'].get(ph) == [orig] for ph, orig in exp['names'].items() if ph in cont['outer']) and \
+                            all(b['exps'].get(ph) == src for ph, src in exp['exps'].items()):
+                        first = m
+                        break
+                if first is not None:
+                    one['first'] = True
+                    bound = first[cont['ph']]
+                    for route, fn in (('below', lambda: bound.find_matches(cont['inner'])),
+                                      ('below-again', lambda: bound.find_matches(cont['inner'])),
+                                      ('use_previous', lambda: find_matches(cont['inner'], student_code=case['program'], report=rep,
+                                                                            use_previous=first))):
+                        try:
+                            one[route] = {'bindings': [bindings(m) for m in fn()]}
+                        except Exception as e:
+                            one[route] = {'crash': type(e).__name__ + ': ' + str(e)[:120]}
+            except Exception as e:
+                one['crash'] = type(e).__name__ + ': ' + str(e)[:120]
+            rec['continued'].append(one)
+        rec['seconds'] = round(_time.time() - _t0, 2)
         out.append(rec)
     json.dump(out, open(sys.argv[1], 'w'))
 
